@@ -1,1 +1,924 @@
-fn main(){}
+//! C13 — integer arithmetic is exact or an error; mixed numeric comparisons are exact.
+//!
+//! Families (all executed on the real engine through `{{ a OP b }}` / `{{ -a }}`):
+//!   arithmetic  every ordered pair (a, b) of the numeric alphabet N x `+ - * / // % **`, operands
+//!               supplied as context values (exact encoding i64/u64/i128/u128/f64) and, where the
+//!               language can spell them, also as literals in the template source (all four
+//!               combinations of spelling). Judged by `oracles/numeric_oracle.py` (Python ints,
+//!               IEEE doubles); additionally both Euclidean identities of the statement are checked
+//!               on the engine's own `//` and `%` outputs with checked i128 arithmetic.
+//!   comparison  every ordered pair x `== != < <= > >=` (same spellings) plus `Value::eq`,
+//!               `partial_cmp`, `cmp` at the API; judged by exact `fractions.Fraction` order in Python
+//!               and cross-checked against the bit-level reference `mccore::numref`.
+//!   negation    unary `-` on every value (context value and literal spelling).
+//!
+//! One work item = one left operand `a` x every `b` x every operator, sent to Python as one batch.
+
+use mccore::engine::{self, Out};
+use mccore::numref::{cmp_exact, num_of};
+use mccore::pyoracle::PyOracle;
+use mccore::vals::{self, V};
+use mccore::{Acc, Family, Run, Violation, json};
+use std::cell::RefCell;
+use std::cmp::Ordering;
+
+// ------------------------------------------------------------------------------------- oracle
+
+thread_local! {
+    static ORACLE: RefCell<Option<PyOracle>> = const { RefCell::new(None) };
+}
+
+/// One oracle subprocess per worker process, started on first use.
+fn ask(reqs: &[String]) -> Vec<String> {
+    let ans = ORACLE.with(|o| {
+        o.borrow_mut()
+            .get_or_insert_with(|| PyOracle::spawn("numeric_oracle.py"))
+            .ask(reqs)
+    });
+    for (r, a) in reqs.iter().zip(&ans) {
+        if a.starts_with('!') || a.is_empty() {
+            eprintln!("MACHINERY: numeric oracle failed on request {r:?}: {a}");
+            std::process::exit(mccore::kernel::EXIT_MACHINERY);
+        }
+    }
+    ans
+}
+
+/// Operand encoding for the oracle: the mathematical value only.
+fn enc(v: &V) -> String {
+    match v {
+        V::I64(i) => format!("i{i}"),
+        V::U64(i) => format!("i{i}"),
+        V::I128(i) => format!("i{i}"),
+        V::U128(i) => format!("i{i}"),
+        V::F64(f) => format!("f{:016x}", f.to_bits()),
+        _ => unreachable!("numeric alphabet only"),
+    }
+}
+
+// ------------------------------------------------------------------------------------- alphabet
+
+/// Every encoding that can hold the integer (sign, magnitude).
+fn encodings(neg: bool, mag: u128) -> Vec<V> {
+    let mut out = vec![];
+    if !neg {
+        if mag <= i64::MAX as u128 {
+            out.push(V::I64(mag as i64));
+        }
+        if mag <= u64::MAX as u128 {
+            out.push(V::U64(mag as u64));
+        }
+        if mag <= i128::MAX as u128 {
+            out.push(V::I128(mag as i128));
+        }
+        out.push(V::U128(mag));
+    } else {
+        if mag <= 1u128 << 63 {
+            out.push(V::I64((mag as i128).wrapping_neg() as i64));
+        }
+        if mag <= 1u128 << 127 {
+            out.push(V::I128((mag as i128).wrapping_neg()));
+        }
+    }
+    out
+}
+
+fn push_unique(v: &mut Vec<V>, x: V) {
+    // f64 NaN != NaN under PartialEq: compare by description
+    let d = x.describe();
+    if !v.iter().any(|y| y.describe() == d) {
+        v.push(x);
+    }
+}
+
+fn alphabet(thorough: bool) -> Vec<V> {
+    let mut ints: Vec<(bool, u128)> = vec![];
+    let mut add = |neg: bool, mag: u128| {
+        let neg = neg && mag != 0;
+        if neg && mag > 1u128 << 127 {
+            return;
+        }
+        if !ints.contains(&(neg, mag)) {
+            ints.push((neg, mag));
+        }
+    };
+    // DESIGN.md section 4, alphabet N
+    for m in [0u128, 1, 2, 3] {
+        add(false, m);
+        add(true, m);
+    }
+    add(false, 7);
+    add(false, 10);
+    add(false, 1 << 31);
+    add(true, 1 << 31);
+    add(false, 1 << 32);
+    add(false, (1 << 53) - 1);
+    add(false, 1 << 53);
+    add(false, (1 << 53) + 1);
+    add(false, (1 << 63) - 1);
+    add(false, 1 << 63);
+    add(true, 1 << 63);
+    add(false, (1 << 64) - 1);
+    add(false, 1 << 64);
+    add(false, (1 << 64) + 1);
+    add(true, (1 << 64) + 1);
+    add(false, (1 << 127) - 1);
+    add(true, 1 << 127);
+    add(false, 1 << 127);
+    add(false, u128::MAX);
+    // the +-1 neighbours of every width boundary, both signs (quick tier already)
+    for sh in [31u32, 32, 53, 63, 64, 127] {
+        let b = 1u128 << sh;
+        for m in [b - 1, b, b + 1] {
+            add(false, m);
+            add(true, m);
+        }
+    }
+    add(false, u128::MAX - 1);
+    if thorough {
+        // further powers of two with their neighbours (u8/i8 .. u32, f32 and f64 mantissas, 2^62..2^65,
+        // 2^96, 2^126), both signs
+        for sh in [7u32, 8, 15, 16, 24, 52, 54, 62, 65, 96, 126] {
+            let b = 1u128 << sh;
+            for m in [b - 1, b, b + 1] {
+                add(false, m);
+                add(true, m);
+            }
+        }
+        // where `*` by 2, 3, 7, 10 crosses i128::MAX / i128::MIN
+        for d in [2u128, 3, 7, 10] {
+            let q = i128::MAX as u128 / d;
+            for m in [q, q + 1] {
+                add(false, m);
+                add(true, m);
+            }
+        }
+        // floor(sqrt(2^127 - 1)) and its successor: squares on both sides of the boundary
+        add(false, 13043817825332782212);
+        add(false, 13043817825332782213);
+        add(true, 13043817825332782212);
+        add(true, 13043817825332782213);
+        // +-2 around the f64 exactness boundary and the 64-bit boundaries
+        for m in [(1u128 << 53) + 2, (1 << 53) + 3, (1 << 63) + 2, (1 << 64) + 2, (1 << 64) - 2] {
+            add(false, m);
+            add(true, m);
+        }
+    }
+    let mut out = vec![];
+    for (neg, mag) in ints {
+        for v in encodings(neg, mag) {
+            push_unique(&mut out, v);
+        }
+    }
+    // exponents that put `**` on both sides of the i128 boundary (one encoding is enough)
+    for e in [63i64, 64, 126, 127, 128] {
+        push_unique(&mut out, V::I64(e));
+    }
+    // 10^38 < 2^127 < 10^39; 7^45 < 2^127 < 7^46; 3^80 < 2^127 < 3^81
+    for e in [4i64, 5, -7, -10, 38, 39, 45, 46, 80, 81] {
+        push_unique(&mut out, V::I64(e));
+    }
+    if thorough {
+        for e in [6i64, 9, 11, 12, 13, 19, 20, 21, 25, 31, 32, 33, 42, 43, 62, 100, 125, 129, 1000, -4, -5, -63, -64, -127, -128] {
+            push_unique(&mut out, V::I64(e));
+        }
+    }
+    let mut floats = vec![
+        0.0,
+        -0.0,
+        0.5,
+        -0.5,
+        1.5,
+        2.5,
+        1e10,
+        9007199254740992.0,      // 2^53
+        9223372036854775808.0,   // 2^63
+        18446744073709551616.0,  // 2^64
+        1.7014118346046923e38,   // 2^127
+        3.402823669209385e38,    // 2^128
+        1e300,
+        f64::MAX,
+        f64::MIN_POSITIVE,
+        f64::INFINITY,
+        f64::NEG_INFINITY,
+        f64::NAN,
+    ];
+    {
+        let p63 = 9223372036854775808.0f64;
+        let p64 = 18446744073709551616.0f64;
+        let p127 = 1.7014118346046923e38f64;
+        let p128 = 3.402823669209385e38f64;
+        let prev = |f: f64| f64::from_bits(f.to_bits() - 1);
+        let next = |f: f64| f64::from_bits(f.to_bits() + 1);
+        floats.extend([
+            1.0,
+            -1.0,
+            2.0,
+            3.0,
+            -1.5,
+            -2.5,
+            -3.0,
+            0.1,
+            7.0,
+            -7.0,
+            127.0,
+            -1e10,
+            9007199254740991.0, // 2^53 - 1
+            9007199254740994.0, // 2^53 + 2
+            -9007199254740992.0,
+            prev(p63),
+            next(p63),
+            -p63,
+            prev(-p63), // bits - 1 on a negative double moves towards zero: -(2^63 - 1024)
+            prev(p64),
+            next(p64),
+            -p64,
+            prev(p127),
+            next(p127),
+            -p127,
+            next(-p127), // bits + 1 on a negative double moves away from zero: just below i128::MIN
+            prev(p128),
+            next(p128),
+            -p128,
+            -1e300,
+            1e-300,
+            f64::MIN,
+            -f64::MIN_POSITIVE,
+            5e-324,
+            -5e-324,
+        ]);
+    }
+    if thorough {
+        floats.extend([
+            4503599627370496.0, // 2^52
+            4503599627370496.5, // the last double with a fraction is 2^52 - 0.5; this literal rounds to 2^52
+            4503599627370495.5, // 2^52 - 0.5
+            -4503599627370495.5,
+            9007199254740993.0, // rounds to 2^53 (ties-to-even)
+            2147483648.0,
+            4294967296.0,
+            4294967295.5,
+            -2147483648.5,
+            0.25,
+            -0.25,
+            0.75,
+            3.5,
+            -3.5,
+            10.0,
+            -10.0,
+            63.0,
+            64.0,
+            126.0,
+            128.0,
+            -127.0,
+            1e15,
+            1e16,
+            1e17,
+            123456789.125,
+            -123456789.125,
+            1e-10,
+            -0.1,
+            0.30000000000000004,
+            1.0000000000000002, // 1 + ulp
+            0.9999999999999999, // 1 - ulp/2
+            8.98846567431158e307, // 2^1023
+            -8.98846567431158e307,
+            1e308,
+            2.2250738585072009e-308, // largest subnormal
+        ]);
+    }
+    for f in floats {
+        push_unique(&mut out, V::F64(f));
+    }
+    out
+}
+
+/// Template literal for the value when the language can spell it (the lexer reads digits and one
+/// dot only: no exponent, no i64::MIN, nothing wider than i64). Negative ones are parenthesised
+/// so that `-` stays a unary minus on the literal whatever the operator around it.
+fn literal(v: &V) -> Option<String> {
+    match v {
+        V::I64(i) if *i >= 0 => Some(format!("{i}")),
+        V::I64(i) if *i != i64::MIN => Some(format!("(-{})", i.unsigned_abs())),
+        V::F64(f) if f.is_finite() => {
+            let s = format!("{:?}", f.abs());
+            if s.contains('e') || s.contains('E') {
+                return None;
+            }
+            Some(if f.is_sign_negative() { format!("(-{s})") } else { s })
+        }
+        _ => None,
+    }
+}
+
+fn enc_name(v: &V) -> &'static str {
+    match v {
+        V::I64(_) => "i64",
+        V::U64(_) => "u64",
+        V::I128(_) => "i128",
+        V::U128(_) => "u128",
+        V::F64(_) => "f64",
+        _ => "?",
+    }
+}
+
+fn is_int(v: &V) -> bool {
+    !matches!(v, V::F64(_))
+}
+
+/// Honest non-triviality rule for an operand: it sits at / beyond a representation boundary.
+fn beyond_53(v: &V) -> bool {
+    match v {
+        V::F64(_) => true,
+        V::I64(i) => i.unsigned_abs() as u128 > 1u128 << 53,
+        V::U64(i) => *i as u128 > 1u128 << 53,
+        V::I128(i) => i.unsigned_abs() > 1u128 << 53,
+        V::U128(i) => *i > 1u128 << 53,
+        _ => false,
+    }
+}
+
+// ------------------------------------------------------------------------------------- judging
+
+#[derive(Debug, Clone, PartialEq)]
+enum Got {
+    Int(String),
+    Float(f64),
+    Bool(bool),
+    Err,
+    Panic,
+    Garbage,
+}
+
+fn classify(out: &Out) -> Got {
+    match out {
+        Out::Err(..) => Got::Err,
+        Out::Panic(_) => Got::Panic,
+        Out::Ok(s) => {
+            let digits = s.strip_prefix('-').unwrap_or(s);
+            if !digits.is_empty() && digits.bytes().all(|b| b.is_ascii_digit()) {
+                Got::Int(s.clone())
+            } else if s == "true" || s == "false" {
+                Got::Bool(s == "true")
+            } else if s.contains('.') || s.contains('e') || s == "inf" || s == "-inf" || s == "NaN" {
+                // `{:?}` of an f64 always carries one of these marks and parses back exactly
+                match s.parse::<f64>() {
+                    Ok(f) => Got::Float(f),
+                    Err(_) => Got::Garbage,
+                }
+            } else {
+                Got::Garbage
+            }
+        }
+    }
+}
+
+fn ordered(bits: u64) -> i128 {
+    let mag = (bits & 0x7fff_ffff_ffff_ffff) as i128;
+    if bits >> 63 == 1 { -mag } else { mag }
+}
+
+fn alt_matches(got: &Got, alt: &str) -> bool {
+    match (got, alt.as_bytes()[0]) {
+        (Got::Err, b'E') => true,
+        (Got::Int(s), b'I') => s == &alt[1..],
+        (Got::Float(f), b'F') => {
+            if &alt[1..] == "nan" {
+                f.is_nan()
+            } else {
+                u64::from_str_radix(&alt[1..], 16).map(|b| b == f.to_bits()).unwrap_or(false)
+            }
+        }
+        (Got::Float(f), b'U') => match u64::from_str_radix(&alt[1..], 16) {
+            Ok(b) => !f.is_nan() && (ordered(b) - ordered(f.to_bits())).abs() <= 1,
+            Err(_) => false,
+        },
+        _ => false,
+    }
+}
+
+fn token_matches(got: &Got, token: &str) -> bool {
+    token.split('|').any(|alt| alt_matches(got, alt))
+}
+
+fn show_token(token: &str) -> String {
+    token
+        .split('|')
+        .map(|alt| match alt.as_bytes()[0] {
+            b'E' => "an error".to_string(),
+            b'I' => format!("integer {}", &alt[1..]),
+            b'F' if &alt[1..] == "nan" => "NaN".to_string(),
+            b'F' => format!("float {:?}", f64::from_bits(u64::from_str_radix(&alt[1..], 16).unwrap_or(0))),
+            b'U' => format!(
+                "float {:?} (1 ulp)",
+                f64::from_bits(u64::from_str_radix(&alt[1..], 16).unwrap_or(0))
+            ),
+            _ => alt.to_string(),
+        })
+        .collect::<Vec<_>>()
+        .join(" or ")
+}
+
+/// What kind of disagreement: used in signatures.
+fn mismatch_kind(got: &Got, token: &str) -> &'static str {
+    let wants_err_only = token == "E";
+    match got {
+        Got::Panic => "panic",
+        Got::Garbage | Got::Bool(_) => "unparsable-output",
+        Got::Err => "unexpected-err",
+        _ if wants_err_only => "missing-err",
+        Got::Int(_) if !token.split('|').any(|a| a.starts_with('I')) => "wrong-type",
+        Got::Float(_) if !token.split('|').any(|a| a.starts_with('F') || a.starts_with('U')) => "wrong-type",
+        _ => "wrong-value",
+    }
+}
+
+fn operand_class(a: &V, b: &V) -> &'static str {
+    match (is_int(a), is_int(b)) {
+        (true, true) => "int",
+        (false, false) => "float",
+        _ => "mixed",
+    }
+}
+
+const ARITH_OPS: [&str; 7] = ["+", "-", "*", "/", "//", "%", "**"];
+const CMP_OPS: [&str; 6] = ["==", "!=", "<", "<=", ">", ">="];
+
+/// Signature of an arithmetic disagreement; the two defects known before building get their own.
+fn arith_signature(op: &str, a: &V, b: &V, got: &Got, token: &str) -> String {
+    if let (Some(x), Some(y)) = (a.as_i128(), b.as_i128())
+        && is_int(a)
+        && is_int(b)
+        && *got == Got::Err
+    {
+        if op == "%" && x == i128::MIN && y == -1 {
+            return "rem-min-by-minus-one".into();
+        }
+        if op == "**" && (-1..=1).contains(&x) && y >= 1i128 << 32 {
+            return "pow-huge-exponent-trivial-base".into();
+        }
+    }
+    format!("arith:{op}:{}:{}", mismatch_kind(got, token), operand_class(a, b))
+}
+
+/// The spellings of one binary case: (template source, which operands are literals).
+fn spellings(op: &str, la: &Option<String>, lb: &Option<String>) -> Vec<(String, &'static str)> {
+    let mut v = vec![(format!("{{{{ a {op} b }}}}"), "ctx/ctx")];
+    if let Some(x) = la {
+        v.push((format!("{{{{ {x} {op} b }}}}"), "lit/ctx"));
+    }
+    if let Some(y) = lb {
+        v.push((format!("{{{{ a {op} {y} }}}}"), "ctx/lit"));
+    }
+    if let (Some(x), Some(y)) = (la, lb) {
+        v.push((format!("{{{{ {x} {op} {y} }}}}"), "lit/lit"));
+    }
+    v
+}
+
+// ------------------------------------------------------------------------------------- self-test
+
+enum Want {
+    Int(&'static str),
+    Float(f64),
+    Err,
+    Bool(bool),
+}
+
+/// Hand-transcribed examples: docs/content/_index.md "Math" / "Comparisons", the unit tests
+/// `can_negate` / `arithmetic_in_i128` of number.rs, the snapshot input mixed_numeric_compare.txt,
+/// and a few values worked out by hand from the property statement (Euclidean pairs, boundaries).
+fn documented_examples() -> Vec<(V, &'static str, V, Want, &'static str)> {
+    let i = V::I64;
+    let f = V::F64;
+    vec![
+        (i(1), "+", i(1), Want::Int("2"), "docs: {{ 1 + 1 }} prints 2"),
+        (i(2), "-", i(1), Want::Int("1"), "docs: {{ 2 - 1 }} prints 1"),
+        // the docs print `5`; the property statement says `/` always yields the float quotient
+        (i(10), "/", i(2), Want::Float(5.0), "docs: {{ 10 / 2 }} (statement: floating-point quotient)"),
+        (i(5), "*", i(2), Want::Int("10"), "docs: {{ 5 * 2 }} prints 10"),
+        (i(2), "%", i(2), Want::Int("0"), "docs: {{ 2 % 2 }} prints 0"),
+        (i(-1), "+", V::U128(2), Want::Int("1"), "number.rs arithmetic_in_i128"),
+        (V::U128(5), "-", V::U64(10), Want::Int("-5"), "number.rs arithmetic_in_i128"),
+        (V::I128(i128::MAX), "+", V::I128(1), Want::Err, "number.rs arithmetic_in_i128"),
+        (V::U128(u128::MAX), "+", V::U64(0), Want::Err, "number.rs arithmetic_in_i128 / as_number doc"),
+        (i(2), "<", f(3.0), Want::Bool(true), "mixed_numeric_compare.txt"),
+        (i(2), ">", f(3.0), Want::Bool(false), "mixed_numeric_compare.txt"),
+        (i(2), "<=", f(3.0), Want::Bool(true), "mixed_numeric_compare.txt"),
+        (i(2), ">=", f(3.0), Want::Bool(false), "mixed_numeric_compare.txt"),
+        (f(3.0), "<", i(2), Want::Bool(false), "mixed_numeric_compare.txt"),
+        (f(3.0), ">", i(2), Want::Bool(true), "mixed_numeric_compare.txt"),
+        (i(2), "==", f(2.0), Want::Bool(true), "mixed_numeric_compare.txt"),
+        (i(2), "<", f(2.0), Want::Bool(false), "mixed_numeric_compare.txt"),
+        (i(2), "<=", f(2.0), Want::Bool(true), "mixed_numeric_compare.txt"),
+        (i(1152921504606846976), "==", f(1152921504606846976.0), Want::Bool(true), "mixed_numeric_compare.txt"),
+        (i(1152921504606846977), ">", f(1152921504606846976.0), Want::Bool(true), "mixed_numeric_compare.txt"),
+        // by hand from the statement
+        (i(-7), "//", i(2), Want::Int("-4"), "Euclidean: -7 = -4*2 + 1"),
+        (i(-7), "%", i(2), Want::Int("1"), "Euclidean: -7 = -4*2 + 1"),
+        (i(7), "//", i(-2), Want::Int("-3"), "Euclidean: 7 = -3*-2 + 1"),
+        (i(7), "%", i(-2), Want::Int("1"), "Euclidean: 7 = -3*-2 + 1"),
+        (i(-7), "//", i(-2), Want::Int("4"), "Euclidean: -7 = 4*-2 + 1"),
+        (i(-7), "%", i(-2), Want::Int("1"), "Euclidean: -7 = 4*-2 + 1"),
+        (V::I128(i128::MIN), "//", i(-1), Want::Err, "2^127 does not fit"),
+        (V::I128(i128::MIN), "%", i(-1), Want::Int("0"), "the remainder 0 fits"),
+        (i(2), "**", i(10), Want::Int("1024"), "2^10"),
+        (i(2), "**", i(126), Want::Int("85070591730234615865843651857942052864"), "2^126"),
+        (i(2), "**", i(127), Want::Err, "2^127 does not fit"),
+        (i(-2), "**", i(127), Want::Int("-170141183460469231731687303715884105728"), "(-2)^127 = i128::MIN fits"),
+        (i(7), "/", i(2), Want::Float(3.5), "float quotient"),
+        (i(1), "/", i(0), Want::Err, "division by zero"),
+        (i(1), "//", V::U64(0), Want::Err, "division by zero"),
+        (i(1), "%", V::I128(0), Want::Err, "division by zero"),
+        (f(1.0), "/", f(-0.0), Want::Err, "division by zero"),
+        (f(1.5), "+", i(1), Want::Float(2.5), "float operand: floating point"),
+        (V::U64(u64::MAX), "+", i(1), Want::Int("18446744073709551616"), "no wrap at 2^64"),
+        (i(i64::MAX), "*", i(i64::MAX), Want::Int("85070591730234615847396907784232501249"), "no wrap at 2^63"),
+        (V::I128((1 << 53) + 1), "==", f(9007199254740992.0), Want::Bool(false), "2^53+1 is not 2^53"),
+        (V::I128((1 << 53) + 1), ">", f(9007199254740992.0), Want::Bool(true), "2^53+1 > 2^53"),
+        (f(f64::NAN), "==", f(f64::NAN), Want::Bool(true), "statement: NaN equal to itself"),
+        (f(f64::NAN), ">", f(f64::INFINITY), Want::Bool(true), "statement: NaN after every number"),
+        (f(-0.0), "==", V::U64(0), Want::Bool(true), "-0.0 is zero"),
+        (V::U128(u128::MAX), ">", V::I128(i128::MAX), Want::Bool(true), "2^128-1 > 2^127-1"),
+        (V::U128(u128::MAX), "<", f(3.402823669209385e38), Want::Bool(true), "2^128-1 < 2^128"),
+        (V::U128(u128::MAX), "==", f(3.402823669209385e38), Want::Bool(false), "2^128-1 != 2^128"),
+        (V::I128(i128::MIN), "==", f(-1.7014118346046923e38), Want::Bool(true), "-2^127 == -2^127"),
+    ]
+}
+
+fn documented_negations() -> Vec<(V, Want, &'static str)> {
+    vec![
+        (V::I128(i128::MIN), Want::Err, "number.rs can_negate"),
+        (V::I64(5), Want::Int("-5"), "number.rs can_negate"),
+        (V::I64(-5), Want::Int("5"), "number.rs can_negate"),
+        (V::I128(i128::MAX), Want::Int("-170141183460469231731687303715884105727"), "number.rs can_negate"),
+        (V::U128(5), Want::Int("-5"), "number.rs can_negate"),
+        (V::U128(u128::MAX), Want::Err, "number.rs can_negate"),
+        (V::I64(i64::MIN), Want::Int("9223372036854775808"), "no wrap at -2^63"),
+        (V::F64(0.0), Want::Float(-0.0), "float negation flips the sign"),
+    ]
+}
+
+fn want_as_got(w: &Want) -> Got {
+    match w {
+        Want::Int(s) => Got::Int(s.to_string()),
+        Want::Float(f) => Got::Float(*f),
+        Want::Err => Got::Err,
+        Want::Bool(b) => Got::Bool(*b),
+    }
+}
+
+fn cmp_truth(op: &str, ord: Ordering) -> bool {
+    match op {
+        "==" => ord == Ordering::Equal,
+        "!=" => ord != Ordering::Equal,
+        "<" => ord == Ordering::Less,
+        "<=" => ord != Ordering::Greater,
+        ">" => ord == Ordering::Greater,
+        ">=" => ord != Ordering::Less,
+        _ => unreachable!(),
+    }
+}
+
+fn ord_of(tok: &str) -> Ordering {
+    match tok {
+        "<" => Ordering::Less,
+        "=" => Ordering::Equal,
+        ">" => Ordering::Greater,
+        other => {
+            eprintln!("MACHINERY: numeric oracle returned comparison token {other:?}");
+            std::process::exit(mccore::kernel::EXIT_MACHINERY)
+        }
+    }
+}
+
+/// Supervisor only: the oracle must reproduce every hand-written example (else exit 2); the engine
+/// disagreeing with one is a violation of its own.
+fn self_test(run: &mut Run, tera: &tera::Tera) {
+    let mut bad_oracle = vec![];
+    let mut n = 0;
+    for (a, op, b, want, src) in documented_examples() {
+        n += 1;
+        let ans = ask(&[format!("A {} {}", enc(&a), enc(&b))]);
+        let toks: Vec<&str> = ans[0].split(' ').collect();
+        let wg = want_as_got(&want);
+        let oracle_ok = if let Some(k) = ARITH_OPS.iter().position(|o| *o == op) {
+            // the oracle must expect exactly this (no alternative that would also let something else pass)
+            toks.len() == 8 && !toks[k].contains('|') && token_matches(&wg, toks[k])
+        } else {
+            toks.len() == 8 && wg == Got::Bool(cmp_truth(op, ord_of(toks[7])))
+        };
+        if !oracle_ok {
+            bad_oracle.push(format!("{} {op} {} ({src}): oracle answered {:?}", a.describe(), b.describe(), ans[0]));
+        }
+        let tpl = format!("{{{{ a {op} b }}}}");
+        let out = engine::render_str(tera, &tpl, &vals::context(&[("a", &a), ("b", &b)]), false);
+        let got = classify(&out);
+        let engine_ok = match (&wg, &got) {
+            (Got::Float(x), Got::Float(y)) => x.to_bits() == y.to_bits(),
+            (x, y) => x == y,
+        };
+        if !engine_ok {
+            let sig = if ARITH_OPS.contains(&op) {
+                arith_signature(op, &a, &b, &got, toks[ARITH_OPS.iter().position(|o| *o == op).unwrap()])
+            } else {
+                format!("compare:{op}:{}/{}", enc_name(&a), enc_name(&b))
+            };
+            run.direct_violation(
+                "documented-examples",
+                Violation {
+                    signature: sig,
+                    message: format!("documented example ({src}): {tpl} gave {}", out.show()),
+                    case: json!({"template": tpl, "a": a.describe(), "b": b.describe(), "source": src}),
+                },
+            );
+        }
+    }
+    for (a, want, src) in documented_negations() {
+        n += 1;
+        let ans = ask(&[format!("N {}", enc(&a))]);
+        let wg = want_as_got(&want);
+        if ans[0].contains('|') || !token_matches(&wg, &ans[0]) {
+            bad_oracle.push(format!("-{} ({src}): oracle answered {:?}", a.describe(), ans[0]));
+        }
+        let out = engine::render_str(tera, "{{ -a }}", &vals::context(&[("a", &a)]), false);
+        let got = classify(&out);
+        let engine_ok = match (&wg, &got) {
+            (Got::Float(x), Got::Float(y)) => x.to_bits() == y.to_bits(),
+            (x, y) => x == y,
+        };
+        if !engine_ok {
+            run.direct_violation(
+                "documented-examples",
+                Violation {
+                    signature: format!("negate:{}:{}", mismatch_kind(&got, &ans[0]), enc_name(&a)),
+                    message: format!("documented example ({src}): {{{{ -a }}}} gave {}", out.show()),
+                    case: json!({"template": "{{ -a }}", "a": a.describe(), "source": src}),
+                },
+            );
+        }
+    }
+    if !bad_oracle.is_empty() {
+        for b in &bad_oracle {
+            println!("MACHINERY: oracle self-test failed: {b}");
+        }
+        std::process::exit(mccore::kernel::EXIT_MACHINERY);
+    }
+    run.extra("oracle_selftest_examples", json!(n));
+    run.guard("oracle-selftest", true, format!("numeric_oracle.py reproduced all {n} hand-transcribed documented examples"));
+    // the oracle subprocess of the supervisor is no longer needed
+    ORACLE.with(|o| *o.borrow_mut() = None);
+}
+
+// ------------------------------------------------------------------------------------- main
+
+fn main() {
+    let mut run = Run::from_env("C13", "exploration");
+    let thorough = run.tier.is_thorough();
+    run.rule(
+        "arithmetic: every ordered pair (a, b) of the numeric alphabet x 7 operators x every available spelling \
+         (context value / literal per operand), one case per rendered template; comparison: every ordered pair x 6 \
+         operators x spellings, plus one API case (==, partial_cmp, cmp) per pair; negation: every value x spellings. \
+         Non-trivial = the case touches a representation question: the operands differ in encoding, or one of them is \
+         a float or lies beyond +-2^53, or the oracle expects a refusal. Cases are distinct (a, b, operator, spelling) \
+         tuples by construction.",
+    );
+    run.assume("oracle = Python 3 stdlib: unbounded ints, IEEE-754 doubles (same hardware arithmetic, round-to-nearest-even int->double), fractions.Fraction for order");
+    run.assume("`**` with a float or negative exponent is compared to math.pow within 1 ulp (libm is not under test); float `//` and `%` follow the documented f64::div_euclid / rem_euclid definition re-derived in Python from fmod and trunc");
+    run.assume("pinned, not asserted: integer ** negative integer is evaluated in floating point (Err, the float within 1 ulp, or the exact integer when there is one are accepted); an integer operand above i128::MAX combined with a float operand may be refused or computed in floating point");
+    run.assume("engine output is read back from the rendered text: integers as decimal strings compared textually, floats parsed from Rust's shortest round-trip `{:?}` form and compared by bit pattern (any NaN equals any NaN)");
+    run.assume("numbers outside the alphabet (in particular arbitrary interior values) are not explored; the alphabet holds every encoding of every width boundary and its neighbours");
+
+    let ns = alphabet(thorough);
+    let n = ns.len() as u64;
+    let lits: Vec<Option<String>> = ns.iter().map(literal).collect();
+    let encs: Vec<String> = ns.iter().map(enc).collect();
+    let tv: Vec<tera::Value> = ns.iter().map(|v| v.to_tera()).collect();
+    run.extra("numeric_alphabet_size", json!(n));
+    run.extra(
+        "alphabets",
+        json!({
+            "N": ns.iter().map(|v| v.describe()).collect::<Vec<_>>(),
+            "with_literal_spelling": ns.iter().zip(&lits).filter(|(_, l)| l.is_some()).count(),
+            "arithmetic_operators": ARITH_OPS,
+            "comparison_operators": CMP_OPS,
+        }),
+    );
+    run.extra(
+        "bounds",
+        json!(format!("all {n}x{n} ordered pairs x 13 binary operators, {n} negations, every context/literal spelling")),
+    );
+    let tera_inst = tera::Tera::default();
+
+    if run.is_supervisor() {
+        self_test(&mut run, &tera_inst);
+    }
+
+    // ---------------------------------------------------------------- arithmetic
+    run.family(
+        Family::new(
+            "arithmetic",
+            n,
+            &format!("all {n}^2 ordered pairs of N x (+ - * / // % **) x context/literal spellings; Euclidean identities on the engine's own outputs"),
+        )
+        .describe(|i| json!({"a": ns[i as usize].describe(), "b": "every value of N", "ops": ARITH_OPS})),
+        |item, acc: &mut Acc| {
+            let ia = item as usize;
+            let a = &ns[ia];
+            let reqs: Vec<String> = encs.iter().map(|eb| format!("A {} {eb}", encs[ia])).collect();
+            let answers = ask(&reqs);
+            let mut identities: Vec<(usize, String, String, String)> = vec![];
+            for (ib, b) in ns.iter().enumerate() {
+                let toks: Vec<&str> = answers[ib].split(' ').collect();
+                assert!(toks.len() == 8, "oracle answer has 8 fields: {:?}", answers[ib]);
+                let ctx = vals::context(&[("a", a), ("b", b)]);
+                let boundary = enc_name(a) != enc_name(b) || beyond_53(a) || beyond_53(b);
+                let mut euclid: [Option<Got>; 2] = [None, None];
+                for (k, op) in ARITH_OPS.iter().enumerate() {
+                    let token = toks[k];
+                    for (src, spelling) in spellings(op, &lits[ia], &lits[ib]) {
+                        let out = engine::render_str(&tera_inst, &src, &ctx, false);
+                        let got = classify(&out);
+                        let ok = token_matches(&got, token);
+                        if !ok {
+                            acc.violation(
+                                arith_signature(op, a, b, &got, token),
+                                format!("{src} with a={}, b={} gave {}, expected {}", a.describe(), b.describe(), out.show(), show_token(token)),
+                                || json!({"template": src, "a": a.describe(), "b": b.describe(), "spelling": spelling, "expected": token}),
+                            );
+                        }
+                        let class = match &got {
+                            Got::Int(_) => "ok-int",
+                            Got::Float(_) => "ok-float",
+                            Got::Err => "err",
+                            Got::Panic => "panic",
+                            _ => "unparsable",
+                        };
+                        let pinned = token.contains('|');
+                        acc.case(boundary || token.contains('E'), if pinned { if got == Got::Err { "pinned:err" } else { "pinned:ok" } } else { class });
+                        acc.count(&format!("op {op} {}", if got == Got::Err { "err" } else { "ok" }), 1);
+                        if spelling != "ctx/ctx" {
+                            acc.count("literal_spellings", 1);
+                        }
+                        if spelling == "ctx/ctx" {
+                            if *op == "//" {
+                                euclid[0] = Some(got.clone());
+                            } else if *op == "%" {
+                                euclid[1] = Some(got.clone());
+                            }
+                        }
+                        if ia == 9 && (20..23).contains(&ib) && k == 4 && spelling == "ctx/ctx" {
+                            acc.sample(|| json!({"template": src, "a": a.describe(), "b": b.describe(), "observed": out.show(), "oracle": token}));
+                        }
+                    }
+                }
+                // both identities of the statement on the engine's own outputs (integers only);
+                // decided exactly by Python ints in a second batch (q * b can exceed i128 on the way)
+                if let (Some(x), Some(y), true, true) = (a.as_i128(), b.as_i128(), is_int(a), is_int(b))
+                    && let (Some(Got::Int(q)), Some(Got::Int(r))) = (&euclid[0], &euclid[1])
+                {
+                    identities.push((ib, format!("Q {x} {y} {q} {r}"), q.clone(), r.clone()));
+                }
+            }
+            let verdicts = ask(&identities.iter().map(|t| t.1.clone()).collect::<Vec<_>>());
+            for ((ib, _, q, r), verdict) in identities.iter().zip(&verdicts) {
+                let b = &ns[*ib];
+                for bad in verdict.split(',').filter(|v| *v != "ok") {
+                    acc.violation(
+                        format!("euclid-identity:{bad}"),
+                        match bad {
+                            "reconstruct" => format!("(a // b) * b + a % b != a for a={}, b={}: engine gave a // b = {q}, a % b = {r}", a.describe(), b.describe()),
+                            _ => format!("a % b = {r} is not in 0 <= r < |b| for a={}, b={}", a.describe(), b.describe()),
+                        },
+                        || json!({"template": "{{ a // b }} {{ a % b }}", "a": a.describe(), "b": b.describe(), "q": q, "r": r}),
+                    );
+                }
+                acc.count("euclid_identities_checked", 1);
+            }
+        },
+    );
+
+    // ---------------------------------------------------------------- comparison
+    run.family(
+        Family::new(
+            "comparison",
+            n,
+            &format!("all {n}^2 ordered pairs of N x (== != < <= > >=) x context/literal spellings, and ==/partial_cmp/cmp at the API"),
+        )
+        .describe(|i| json!({"a": ns[i as usize].describe(), "b": "every value of N", "ops": CMP_OPS})),
+        |item, acc: &mut Acc| {
+            let ia = item as usize;
+            let a = &ns[ia];
+            let reqs: Vec<String> = encs.iter().map(|eb| format!("A {} {eb}", encs[ia])).collect();
+            let answers = ask(&reqs);
+            for (ib, b) in ns.iter().enumerate() {
+                let tok = answers[ib].rsplit(' ').next().unwrap_or("");
+                let want = ord_of(tok);
+                // second, independent reference (bit-level, no Python): must agree with Fraction
+                let second = cmp_exact(&num_of(a).unwrap(), &num_of(b).unwrap());
+                if second != want {
+                    // a broken oracle is a machinery failure (guard `oracles-agree`), not a verdict
+                    acc.count("oracle_disagreements", 1);
+                    acc.sample(|| json!({"oracle_disagreement": {"a": a.describe(), "b": b.describe(), "python": format!("{want:?}"), "numref": format!("{second:?}")}}));
+                }
+                let ctx = vals::context(&[("a", a), ("b", b)]);
+                let boundary = enc_name(a) != enc_name(b) || beyond_53(a) || beyond_53(b);
+                let sig = |what: &str| format!("compare:{what}:{}/{}", enc_name(a), enc_name(b));
+                for op in CMP_OPS {
+                    let truth = cmp_truth(op, want);
+                    for (src, spelling) in spellings(op, &lits[ia], &lits[ib]) {
+                        let out = engine::render_str(&tera_inst, &src, &ctx, false);
+                        let got = classify(&out);
+                        if got != Got::Bool(truth) {
+                            acc.violation(
+                                sig(op),
+                                format!("{src} with a={}, b={} gave {}, exact values say {truth}", a.describe(), b.describe(), out.show()),
+                                || json!({"template": src, "a": a.describe(), "b": b.describe(), "spelling": spelling, "expected": truth}),
+                            );
+                        }
+                        acc.case(boundary, match &got { Got::Bool(true) => "true", Got::Bool(false) => "false", Got::Err => "err", Got::Panic => "panic", _ => "unparsable" });
+                        acc.count(&format!("op {op} {}", match &got { Got::Bool(true) => "true", Got::Bool(false) => "false", _ => "other" }), 1);
+                        if ia == 30 && ib == 31 && op == "<" {
+                            acc.sample(|| json!({"template": src, "a": a.describe(), "b": b.describe(), "observed": out.show(), "exact_order": format!("{want:?}")}));
+                        }
+                    }
+                }
+                // API level
+                let (ta, tb) = (&tv[ia], &tv[ib]);
+                match engine::guarded(|| (ta == tb, ta.partial_cmp(tb), ta.cmp(tb))) {
+                    Ok((eq, pc, c)) => {
+                        if eq != (want == Ordering::Equal) {
+                            acc.violation(sig("api-eq"), format!("Value == is {eq}, exact order is {want:?}"), || json!({"a": a.describe(), "b": b.describe(), "api": "PartialEq::eq"}));
+                        }
+                        if pc != Some(want) {
+                            acc.violation(sig("api-partial_cmp"), format!("partial_cmp is {pc:?}, exact order is {want:?}"), || json!({"a": a.describe(), "b": b.describe(), "api": "PartialOrd::partial_cmp"}));
+                        }
+                        if c != want {
+                            acc.violation(sig("api-cmp"), format!("cmp is {c:?}, exact order is {want:?}"), || json!({"a": a.describe(), "b": b.describe(), "api": "Ord::cmp"}));
+                        }
+                        acc.case(boundary, match want { Ordering::Less => "api-less", Ordering::Equal => "api-equal", Ordering::Greater => "api-greater" });
+                    }
+                    Err(p) => {
+                        acc.violation(sig("api-panic"), format!("comparison panicked: {p}"), || json!({"a": a.describe(), "b": b.describe(), "api": "eq/partial_cmp/cmp"}));
+                        acc.case(boundary, "panic");
+                    }
+                }
+            }
+        },
+    );
+
+    // ---------------------------------------------------------------- negation
+    run.family(
+        Family::new("negation", n, &format!("unary minus on all {n} values of N, context value and literal spelling")).workers(2),
+        |item, acc: &mut Acc| {
+            let ia = item as usize;
+            let a = &ns[ia];
+            let token = ask(&[format!("N {}", encs[ia])]).remove(0);
+            let ctx = vals::context(&[("a", a)]);
+            let mut forms = vec![("{{ -a }}".to_string(), "ctx")];
+            if let Some(l) = &lits[ia] {
+                forms.push((format!("{{{{ -{l} }}}}"), "lit"));
+            }
+            for (src, spelling) in forms {
+                let out = engine::render_str(&tera_inst, &src, &ctx, false);
+                let got = classify(&out);
+                if !token_matches(&got, &token) {
+                    acc.violation(
+                        format!("negate:{}:{}", mismatch_kind(&got, &token), enc_name(a)),
+                        format!("{src} with a={} gave {}, expected {}", a.describe(), out.show(), show_token(&token)),
+                        || json!({"template": src, "a": a.describe(), "spelling": spelling, "expected": token}),
+                    );
+                }
+                acc.case(beyond_53(a) || token == "E", match &got { Got::Int(_) => "ok-int", Got::Float(_) => "ok-float", Got::Err => "err", Got::Panic => "panic", _ => "unparsable" });
+                acc.count(&format!("op neg {}", if got == Got::Err { "err" } else { "ok" }), 1);
+                if ia < 2 {
+                    acc.sample(|| json!({"template": src, "a": a.describe(), "observed": out.show(), "oracle": token}));
+                }
+            }
+        },
+    );
+
+    if run.is_supervisor() {
+        for op in ARITH_OPS.iter().copied().chain(["neg"]) {
+            let (ok, err) = (run.counter(&format!("op {op} ok")), run.counter(&format!("op {op} err")));
+            run.guard(&format!("both-outcomes:{op}"), ok > 0 && err > 0, format!("ok={ok} err={err}"));
+        }
+        for op in CMP_OPS {
+            let (t, f, o) = (
+                run.counter(&format!("op {op} true")),
+                run.counter(&format!("op {op} false")),
+                run.counter(&format!("op {op} other")),
+            );
+            run.guard(&format!("both-truth-values:{op}"), t > 0 && f > 0, format!("true={t} false={f} other={o}"));
+        }
+        let idn = run.counter("euclid_identities_checked");
+        run.guard("euclid-identities-exercised", idn > 100, format!("{idn} (a, b) pairs had both a // b and a % b checked against the two identities"));
+        let dis = run.counter("oracle_disagreements");
+        run.guard("oracles-agree", dis == 0, format!("{dis} pairs where Python Fraction order and mccore::numref differ"));
+        let lit = run.counter("literal_spellings");
+        run.guard("literal-spellings-exercised", lit > 1000, format!("{lit} cases with at least one operand spelled as a literal"));
+        let pinned = run.outcome("arithmetic", "pinned:ok") + run.outcome("arithmetic", "pinned:err");
+        run.extra("pinned_cases", json!(pinned));
+    }
+    run.finish();
+}
